@@ -52,6 +52,13 @@ def regexpp(regex: Any) -> str:
         "\b": r"\b",
         "\a": r"\a",
         "\0": r"\0",
+        # NOTE: the other characters that str.splitlines() breaks lines at
+        "\x1c": r"\x1c",
+        "\x1d": r"\x1d",
+        "\x1e": r"\x1e",
+        "\x85": r"\x85",
+        "\u2028": r"\u2028",
+        "\u2029": r"\u2029",
     }
 
     result = "".join(ctrl_map.get(c, c) for c in pattern_text)
